@@ -58,6 +58,79 @@ def fam_name(i):
     return "abcdefghijklmnopqrstuvwxyz"[i] if i < 26 else f"f{i}"
 
 
+NAME_STYLES = ("unique", "leafonly", "alike")
+
+
+def presentation(case):
+    """Deterministic PRESENTATION of a canonical case (a function of its trees only, so that replays and the
+    several builds of one case inside a check agree without anything being stored): how the nodes are named, how
+    the families are named and which object stands for an infinite cost.  None of it is part of a property's
+    definitions, all of it is inside their quantifiers ("leaf-labelled trees": ancestors carry no label), and
+    the package's code can depend on it (names compared instead of nodes, `is` instead of `==`, ...).
+      names  unique   every node has its own name (the historical default)
+             leafonly ancestors of both trees are unnamed ('' as ete3 reads "(a,b);"), leaves as before
+             alike    every ancestor of both trees is called "X", leaves as before
+      fams   letters  one-character names (CPython shares ONE object per such string)
+             multi    g8, g9, g10, ... built afresh at every occurrence: equal strings, distinct objects;
+                      'g10' < 'g9' as strings, 'g9' < 'g10' in the package's natural sort
+      float_inf       float('inf') (what the command line and JSON produce) instead of infinity.inf"""
+    import zlib
+
+    h = zlib.crc32(json.dumps([case.get("S"), case.get("O")], sort_keys=True).encode())
+    return {
+        "names": case.get("names") or ("unique", "unique", "leafonly", "alike")[h % 4],
+        "fams": case.get("fams") or ("letters", "letters", "multi")[(h >> 8) % 3],
+        "float_inf": bool((h >> 16) % 4 == 0),
+    }
+
+
+def _s_leaf_paths(S, p=""):
+    if not S:
+        return [p]
+    return [q for i, c in enumerate(S) for q in _s_leaf_paths(c, p + str(i))]
+
+
+def styled_namers(case, style):
+    if style == "unique":
+        return default_sname, default_oname
+    inner = "" if style == "leafonly" else "X"
+    sl = set(_s_leaf_paths(case["S"]))
+
+    def sname(path):
+        return default_sname(path) if path in sl else inner
+
+    def oname(path, leaf=None):
+        return default_oname(path, leaf) if leaf is not None else inner
+
+    return sname, oname
+
+
+def multi_fam_name(i):
+    return "g%d" % (i + 8)  # a NEW str object at every call
+
+
+def multi_fam_index(name):
+    return int(name[1:]) - 8
+
+
+def present_kwargs(case, kw):
+    """Resolves present="auto" in the keyword arguments of build_input / build_output / run_algo into explicit
+    sname / oname / fname / float_inf (explicit arguments win); returns (kw, fidx or None)."""
+    kw = dict(kw)
+    fidx = None
+    if kw.pop("present", None) == "auto":
+        p = presentation(case)
+        sname, oname = styled_namers(case, p["names"])
+        kw.setdefault("sname", sname)
+        kw.setdefault("oname", oname)
+        if p["fams"] == "multi" and "fname" not in kw:
+            kw["fname"] = multi_fam_name
+            fidx = multi_fam_index
+        if p["float_inf"]:
+            kw.setdefault("float_inf", True)
+    return kw, fidx
+
+
 def species_newick(S, sname=default_sname, path=""):
     if not S:
         return sname(path)
@@ -97,8 +170,13 @@ def has_syntenies(case):
 
 
 def build_input(case, sname=default_sname, oname=default_oname, fname=fam_name,
-                float_inf=False, force_plain=False):
-    """Construct the (Super)ReconciliationInput of a canonical case."""
+                float_inf=False, force_plain=False, present=None):
+    """Construct the (Super)ReconciliationInput of a canonical case (present="auto": see `presentation`)."""
+    if present == "auto":
+        kw, _ = present_kwargs(case, {"present": "auto"})
+        sname, oname = kw["sname"], kw["oname"]
+        fname = kw.get("fname", fname)
+        float_inf = kw.get("float_inf", float_inf)
     stree = Tree(species_newick(case["S"], sname) + ";", format=1)
     otree = Tree(object_newick(case["O"], sname, oname) + ";", format=1)
     _, sback = index_tree(stree)
@@ -153,6 +231,7 @@ def solution_key(sol):
 
 def build_output(case, sol, ordered=True, **kw):
     """Construct a (Super)ReconciliationOutput from a canonical solution."""
+    kw, _ = present_kwargs(case, kw)
     inp = build_input(case, **kw)
     _, sback = index_tree(inp.species_lca.tree)
     fname = kw.get("fname", fam_name)
@@ -212,6 +291,7 @@ def run_algo(case, algo, policy="all", **kw):
 
     from superrec2.utils.dynamic_programming import RetentionPolicy
 
+    kw, fidx = present_kwargs(case, kw)
     inp = build_input(case, force_plain=(algo in PLAIN), **kw)
     fn = algorithms()[algo]
     try:
@@ -224,7 +304,7 @@ def run_algo(case, algo, policy="all", **kw):
         return {"err": type(e).__name__, "msg": str(e)[:200]}
     try:
         costs = sorted({enc_cost(o.cost()) for o in outs}, key=str)
-        sols = sorted((canon_solution(o) for o in outs), key=solution_key)
+        sols = sorted((canon_solution(o, fidx=fidx) for o in outs), key=solution_key)
     except Exception as e:  # noqa
         return {"err": "cost:" + type(e).__name__, "msg": str(e)[:200]}
     return {"cost": costs[0] if len(costs) == 1 else (None if not costs else costs), "sols": sols,
